@@ -739,6 +739,16 @@ class BaseOrchestrator(ABC):
         self.app.state_backend.upsert_invocations(invocations)
         # This should add the status registered to the backend
         status_record = self._register_new_invocations(invocations, runner_id)
+        # Index the arguments before the invocations become deliverable, on every
+        # submission path (single call and batch): concurrency control looks
+        # same-key invocations up through this index.
+        for invocation in invocations:
+            task_conf = invocation.call.task.conf
+            if (
+                task_conf.registration_concurrency != ConcurrencyControlType.DISABLED
+                or task_conf.running_concurrency != ConcurrencyControlType.DISABLED
+            ):
+                self.index_arguments_for_concurrency_control(invocation)
         inv_ids = [invocation.invocation_id for invocation in invocations]
         self.app.state_backend.add_histories(invocations, status_record, runner_ctx)
         self.app.trigger.report_tasks_status(inv_ids, status_record.status)
@@ -766,11 +776,6 @@ class BaseOrchestrator(ABC):
         parent_invocation = context.get_dist_invocation_context(self.app.app_id)
         new_invocation = DistributedInvocation.from_parent(call, parent_invocation)
         self.register_new_invocations([new_invocation])
-        if (
-            call.task.conf.registration_concurrency != ConcurrencyControlType.DISABLED
-            or call.task.conf.running_concurrency != ConcurrencyControlType.DISABLED
-        ):
-            self.index_arguments_for_concurrency_control(new_invocation)
         self.app.logger.info(f"invocation:{new_invocation.invocation_id} ROUTED")
         return new_invocation
 
